@@ -304,6 +304,17 @@ pub fn get(pm: &mut Pm, id: u64, face: Face) -> V<io::Result<Option<Vec<u8>>>> {
     }
 }
 
+/// Async lookup that the simulator cancels (drops the future) at the first `Pending` seen once
+/// `handle` reports its armed stall has fired. `None` = cancelled.
+pub fn get_cancel(pm: &mut Pm, id: u64, handle: &crate::disk::SimDisk) -> V<Option<io::Result<Option<Vec<u8>>>>> {
+    let what = "get_tile_by_id_async (cancelled)";
+    match guard(what, || exec::block_on_cancel(pm.get_tile_by_id_async(id), || handle.stalled()))? {
+        Ok(v) => Ok(v),
+        Err(ExecError::LostWake { polls }) => Err(Violation::new(format!("lost-wakeup:{what}"), format!("{what}: future returned Pending after {polls} polls with no wake-up outstanding"))),
+        Err(ExecError::Runaway { polls }) => Err(Violation::new(format!("runaway:{what}"), format!("{what}: not finished after {polls} polls"))),
+    }
+}
+
 pub fn get_xyz(pm: &mut Pm, x: u64, y: u64, z: u8, face: Face) -> V<io::Result<Option<Vec<u8>>>> {
     match face {
         Face::Sync => guard("get_tile", || pm.get_tile(x, y, z)),
